@@ -13,6 +13,7 @@ import (
 	"strings"
 	"time"
 
+	"github.com/enfein/mieru/v3/pkg/appctl/appctlcommon"
 	"github.com/enfein/mieru/v3/pkg/appctl/appctlpb"
 	"github.com/enfein/mieru/v3/pkg/metrics"
 	"github.com/enfein/mieru/v3/pkg/protocol"
@@ -752,27 +753,54 @@ func (d *drv) quotaGrid() {
 			}
 		}
 	}
-	// window arithmetic overflow (days beyond 292 years): correspondence only, outside the property text
-	for _, days := range []int32{106751, 106752, 200000, 213504, 2147483647} {
-		n++
-		u := &quser{name: fmt.Sprintf("c19g-%d-%d", r.Seed, n), quotas: [][2]int32{{days, 1}}}
-		register(u, true, true)
-		h := hist{{TimeUnixMilli: nowNs()/msNs - 1000, Delta: 9 * mib, RollUp: 0}}
-		metrics.VerifSetState(u.up, hsum(h), h)
-		d.publish(u)
-		res := d.ask(u, true, u.name)
-		r.Count("grid-overflow")
-		if r.Rep.Notes == nil {
-			r.Rep.Notes = map[string]string{}
+	// validated versus unvalidated quota records around the validator's bound (maxQuotaDays = 106751): a record
+	// the real validator accepts must never make checkQuota panic and must get the decision of the property;
+	// a rejected record can never be installed, its behaviour is only compared with the model (under recover)
+	for _, days := range []int32{1, 365, 106750, 106751, 106752, 200000, 213504, 1<<31 - 1, 0, -1} {
+		for _, mb := range []int32{1, 5, 0, -3} {
+			n++
+			u := &quser{name: fmt.Sprintf("c19g-%d-%d", r.Seed, n), quotas: [][2]int32{{days, mb}}}
+			rec := &appctlpb.User{Name: proto.String(u.name), Password: proto.String("p"),
+				Quotas: []*appctlpb.Quota{{Days: proto.Int32(days), Megabytes: proto.Int32(mb)}}}
+			valid := appctlcommon.ValidateServerConfigSingleUser(rec) == nil
+			r.Case(fmt.Sprintf("KV %d %d", days, mb), fmt.Sprint(b2i(valid)))
+			r.Count(fmt.Sprintf("validate-%d", b2i(valid)))
+			register(u, true, true)
+			for _, bytes := range []int64{int64(mb)*mib + mib - 1, int64(mb)*mib + mib} {
+				if bytes < 0 {
+					bytes = 0
+				}
+				now := nowNs()
+				h := hist{{TimeUnixMilli: now/msNs - 86400000*400, Delta: bytes / 2, RollUp: 4}, {TimeUnixMilli: now/msNs - 1000, Delta: bytes - bytes/2, RollUp: 0}}
+				metrics.VerifSetState(u.up, hsum(h), h)
+				d.publish(u)
+				res := d.ask(u, true, u.name)
+				r.Count("grid-validated-" + fmt.Sprint(b2i(valid)))
+				r.Distinct(fmt.Sprintf("validated/%d/%d/%d/%s", days, mb, bytes, res))
+				c := map[string]interface{}{"days": days, "mb": mb, "bytes": bytes}
+				if valid {
+					if res == "P" {
+						d.fail("validated-quota-panics", fmt.Sprintf("record days=%d mb=%d passes ValidateServerConfigSingleUser but checkQuota panics", days, mb), c)
+					}
+					exp := expectRefused(u, now)
+					if (exp == 1) != (res == "R") || exp == -1 {
+						d.fail("validated-quota-wrong-decision", fmt.Sprintf("record days=%d mb=%d, %d bytes in the window: checkQuota says %s", days, mb, bytes, res), c)
+					}
+				} else {
+					if r.Rep.Notes == nil {
+						r.Rep.Notes = map[string]string{}
+					}
+					r.Rep.Notes[fmt.Sprintf("unvalidated days=%d mb=%d", days, mb)] = "checkQuota -> " + res
+				}
+			}
 		}
-		r.Rep.Notes[fmt.Sprintf("days=%d", days)] = "checkQuota -> " + res
 	}
 }
 
 func main() {
 	r := vh.Start("c19")
 	defer r.Finish()
-	r.Rep.Rule = "counter: generated operation histories of one metrics.Counter under virtual time (increments in bursts inside one instant / one millisecond, gaps of seconds to three weeks, history start 0 s .. 60 d before the clock, real Add at the clock, roll-up forced at arbitrary operation counts incl. uint64 wrap, natural roll-up at multiples of the interval, Load, window queries on and around entry timestamps, dump/load into fresh and used counters; 'wild' histories add decreasing/future timestamps, forged labels and single passes with arbitrary parameters). quota: boundary grid days x megabytes x byte offset around the allowance x upload/download split, then random mixes of 2..5 users with 0..3 quotas, missing metric groups, traffic outside the window and on its edge, other users' counters changed between two decisions. Non-trivial/distinct = counter histories with at least one roll-up keyed by (span, start operation count mod interval, number of roll-ups, labels present at the end); quota cases keyed by (number of quotas, offset from allowance, registration, traffic outside window)"
+	r.Rep.Rule = "counter: generated operation histories of one metrics.Counter under virtual time (increments in bursts inside one instant / one millisecond, gaps of seconds to three weeks, history start 0 s .. 60 d before the clock, real Add at the clock, roll-up forced at arbitrary operation counts incl. uint64 wrap, natural roll-up at multiples of the interval, Load, window queries on and around entry timestamps, dump/load into fresh and used counters; 'wild' histories add decreasing/future timestamps, forged labels and single passes with arbitrary parameters). quota: boundary grid days x megabytes x byte offset around the allowance x upload/download split, records around the validator's bound on days (106750 .. 2^31-1, 0, -1; megabytes 1, 5, 0, -3) validated by the real ValidateServerConfigSingleUser, then random mixes of 2..5 users with 0..3 quotas, missing metric groups, traffic outside the window and on its edge, other users' counters changed between two decisions. Non-trivial/distinct = counter histories with at least one roll-up keyed by (span, start operation count mod interval, number of roll-ups, labels present at the end); quota cases keyed by (number of quotas, offset from allowance, registration, traffic outside window)"
 	d := &drv{r: r, failed: map[string]bool{}}
 
 	// corpus: the shapes of DESIGN A.6 first (fixed seeds, independent of -seed)
